@@ -47,6 +47,8 @@ class Scalar (K : Type) where
   max : K → K → K
   /-- Rust `%` on f64 (C `fmod`) -/
   fmod : K → K → K
+  /-- `core::f64::consts::PI` -/
+  pi : K
 
 /-- decimal literal as an exact rational (kept as a named function so that simp lemmas about the scoped
 `OfScientific` instance cannot loop through `Rat`'s own instance) -/
@@ -138,5 +140,6 @@ instance : Scalar Rat where
   min a b := if b < a then b else a
   max a b := if a < b then b else a
   fmod := ratFmod
+  pi := 3141592653589793238462643383279502884197 / 1000000000000000000000000000000000000000
 
 end Kurbo
